@@ -141,6 +141,11 @@ def Ctx.atNewline (c : Ctx) (pos : Nat) : Bool :=
   if pos = 0 ∨ pos > c.len then false
   else c.nrank pos > c.nrank (pos - 1)
 
+/-- `at_end_after_delimiter`: the cursor is at the end of a text whose last byte is a delimiter
+outside quotes (a marker that is not a newline). -/
+def Ctx.atEndAfterDelimiter (c : Ctx) (pos : Nat) : Bool :=
+  c.len > 0 && pos == c.len && c.mrank c.len > c.mrank (c.len - 1) && c.nrank c.len == c.nrank (c.len - 1)
+
 /-! ### DsvFields -/
 
 structure FieldsState where
@@ -162,7 +167,9 @@ def Ctx.fieldsNext (c : Ctx) (s : FieldsState) : FieldsState × Option (List Byt
     (⟨s.pos, true, c.lastFieldCheck s.pos field⟩, some field)
   else
     let (pos, ok) := c.nextField s.pos
-    if !ok then (⟨pos, true, true⟩, none)
+    if !ok then
+      -- the text ends right after a delimiter: the row's last field is empty
+      if c.atEndAfterDelimiter pos then (⟨pos, true, true⟩, some []) else (⟨pos, true, true⟩, none)
     else if c.atNewline pos then (⟨pos, true, true⟩, none)
     else
       let field := c.currentField pos
@@ -209,23 +216,26 @@ def Ctx.row (c : Ctx) (n : Nat) : Option Nat :=
   let (p, ok) := c.gotoRow 0 n
   if ok then some p else none
 
-/-- The `for _ in 0..column` loop of `DsvRow::get`: `none` = early `return None`. -/
-def Ctx.getLoop (c : Ctx) : Nat → Nat → Option Nat
-  | 0, pos => some pos
+/-- The `for i in 0..column` loop of `DsvRow::get` (`k` iterations left): `.inl pos` = loop ran to
+completion at `pos`, `.inr r` = early `return r`. -/
+def Ctx.getLoop (c : Ctx) : Nat → Nat → Nat ⊕ Option (List Byte)
+  | 0, pos => .inl pos
   | k + 1, pos =>
     let field := c.currentField pos
-    if field.isEmpty && c.atEnd pos then none
+    if field.isEmpty && c.atEnd pos then .inr none
     else
       let (p, ok) := c.nextField pos
-      if !ok then none
-      else if c.atNewline p || c.atEnd p then none
+      if !ok then
+        -- `i + 1 == column` ⇔ this is the last iteration
+        if k == 0 && c.atEndAfterDelimiter p then .inr (some []) else .inr none
+      else if c.atNewline p || c.atEnd p then .inr none
       else c.getLoop k p
 
 /-- `DsvRow::get(column)` -/
 def Ctx.get (c : Ctx) (rowStart : Nat) (column : Nat) : Option (List Byte) :=
   match c.getLoop column rowStart with
-  | none => none
-  | some pos =>
+  | .inr r => r
+  | .inl pos =>
     let field := c.currentField pos
     if field.isEmpty && c.atEnd pos then none else some field
 
